@@ -1,4 +1,5 @@
 import Walrus.Proofs.Sections
+import Walrus.Proofs.Fixpoint
 
 /-!
 # C08 — emission is deterministic, repeatable and a fixpoint of the round trip
@@ -81,6 +82,35 @@ theorem roundtrip_fixpoint (cfg : SCfg) (ver : String) (input : List InC) :
 /-- the classification at its boundaries -/
 example : classify ".debug_info" = .debug ∧ classify ".debug" = .debug ∧ classify ".debu" = .raw ∧
     classify "" = .raw ∧ classify "name" = .name ∧ classify "producers" = .producers ∧ classify "names" = .raw := by decide
+
+
+/-! ## components of the fixpoint: what the round trip does once it does not do again
+
+The whole-module fixpoint `emit (parse out) = out` is decided by the byte-equality oracle and the
+exact-prediction correspondence; the transformations the round trip applies are each idempotent: -/
+
+/-- a body that went through nop / dead-code elision is not changed by eliding again -/
+theorem elision_is_idempotent (l : Sem.SL) : l.elide.elide = l.elide := elide_idem_L l
+
+/-- the type section of the output holds distinct signatures: de-duplicating it again merges nothing -/
+theorem type_dedup_is_idempotent (sigs : List Sig) : distinctSigs (distinctSigs sigs) = distinctSigs sigs :=
+  distinctSigs_idem sigs
+
+/-- a list that was sorted by a total comparison is left alone by sorting again (types by
+    signature, functions by size then id) -/
+theorem emission_order_is_idempotent {α : Type} (le : α → α → Bool)
+    (total : ∀ a b, le a b = false → le b a = true) (l : List α) : sortBy le (sortBy le l) = sortBy le l :=
+  sortBy_idem le total l
+
+/-- … in particular the function order (size descending, id ascending) -/
+theorem function_order_is_idempotent (l : List (Nat × Nat)) :
+    sortBy (fun a b => decide (a.2 > b.2) || (a.2 == b.2 && decide (a.1 ≤ b.1)))
+      (sortBy (fun a b => decide (a.2 > b.2) || (a.2 == b.2 && decide (a.1 ≤ b.1))) l) =
+    sortBy (fun a b => decide (a.2 > b.2) || (a.2 == b.2 && decide (a.1 ≤ b.1))) l :=
+  sortBy_idem _ funcOrder_total l
+
+example : sortBy (fun (a b : Nat × Nat) => decide (a.2 > b.2) || (a.2 == b.2 && decide (a.1 ≤ b.1))) [(0, 1), (1, 5), (2, 5)] =
+    [(1, 5), (2, 5), (0, 1)] := by decide
 
 end C08
 end Walrus
